@@ -55,6 +55,60 @@ mod u06 {
     }
 }
 
+mod u07 {
+    use super::*;
+    use kameo::actor::ActorId;
+    use sierradb_topology::verif_hooks::{calculate_assigned_partitions, calculate_partition_replicas};
+    use std::collections::HashMap;
+
+    /// Executable rendering of the U07 contracts: replica_nodes(b, N, rf) = { (b % N + k) % N | k < min(rf, N) }.
+    pub fn oracle(n: usize, b: u16, parts: u16, rf: u8, known_mask: u64) -> Option<String> {
+        let eff = (rf as usize).min(n);
+        let mut known: HashMap<usize, ActorId> = HashMap::new();
+        for i in 0..n.min(64) { if known_mask >> i & 1 == 1 { known.insert(i, ActorId::new(i as u64)); } }
+        // a few far-away known nodes for large clusters
+        if n > 64 && known_mask & 1 == 1 { known.insert(n - 1, ActorId::new((n - 1) as u64)); }
+        let all_known = (0..n).all(|i| known.contains_key(&i));
+        for p in 0..parts {
+            let primary = (p % b) as usize % n;
+            let expect: Vec<u64> = (0..eff).map(|k| (primary + k) % n).filter(|i| known.contains_key(i)).map(|i| i as u64).collect();
+            let r = match guarded(|| calculate_partition_replicas::<ActorId>(p, b, n, rf, &known)) { Ok(r) => r, Err(e) => return Some(format!("calculate_partition_replicas({p},{b},{n},{rf}) panicked: {e}")) };
+            let got: Vec<u64> = r.iter().map(|a| a.sequence_id()).collect();
+            if got != expect { return Some(format!("calculate_partition_replicas(partition {p}, buckets {b}, N {n}, rf {rf}, known {:?}) = {got:?}, expected the known members of the replica set in offset order {expect:?}", { let mut k: Vec<_> = known.keys().copied().collect(); k.sort(); k })); }
+            if all_known && got.len() != eff { return Some(format!("partition {p}: {} replicas, expected min(rf, N) = {eff}", got.len())); }
+        }
+        for node in (0..n.min(6)).chain(if n > 6 { vec![n - 1] } else { vec![] }) {
+            let owned = match guarded(|| calculate_assigned_partitions::<ActorId>(node, n, parts, b, rf)) { Ok(r) => r, Err(e) => return Some(format!("calculate_assigned_partitions({node},{n},{parts},{b},{rf}) panicked: {e}")) };
+            for p in 0..parts {
+                let primary = (p % b) as usize % n;
+                let in_set = (0..eff).any(|k| (primary + k) % n == node);
+                if owned.contains(&p) != in_set { return Some(format!("N {n}, buckets {b}, partitions {parts}, rf {rf}: node {node} {} partition {p} but {} in its replica set", if owned.contains(&p) { "owns" } else { "does not own" }, if in_set { "is" } else { "is not" })); }
+            }
+            if owned.iter().any(|p| *p >= parts) { return Some(format!("node {node} owns a partition id >= {parts}")); }
+        }
+        None
+    }
+
+    pub fn search(_item: &str, seed: u64, _hint: &Value) -> Option<(Value, String)> {
+        let mk = |n: usize, b: u16, parts: u16, rf: u8, m: u64| json!({"n": n, "buckets": b, "partitions": parts, "rf": rf, "known_mask": m});
+        for n in 1..=5usize { for b in 1..=6u16 { for parts in [b, b + 1, 2 * b + 1, 8.max(b)] { for rf in 1..=5u8 { for m in [u64::MAX, 0b101, 0b110, 1] {
+            if let Some(d) = oracle(n, b, parts, rf, m) { return Some((mk(n, b, parts, rf, m), d)); }
+        }}}}}
+        for n in [12usize, 13, 255, 256, 257, 300, 1000, 65535, 65536, 70000] { for b in [1u16, 3, 7, 64] { for rf in [1u8, 2, 3, 12] { for m in [u64::MAX, 0b1011] {
+            if let Some(d) = oracle(n, b, 2 * b + 1, rf, m) { return Some((mk(n, b, 2 * b + 1, rf, m), d)); }
+        }}}}
+        let mut rng = Rng::new(seed);
+        for _ in 0..20_000 {
+            let n = 1 + rng.below(40) as usize; let b = 1 + rng.below(20) as u16; let parts = b + rng.below(30) as u16; let rf = 1 + rng.below(12) as u8; let m = rng.next();
+            if let Some(d) = oracle(n, b, parts, rf, m) { return Some((mk(n, b, parts, rf, m), d)); }
+        }
+        None
+    }
+    pub fn run(_item: &str, input: &Value) -> Option<String> {
+        oracle(input["n"].as_u64()? as usize, input["buckets"].as_u64()? as u16, input["partitions"].as_u64()? as u16, input["rf"].as_u64()? as u8, input["known_mask"].as_u64()?)
+    }
+}
+
 fn main() {
-    main_with(&[Driver { name: "U06", search: u06::search, run: u06::run }]);
+    main_with(&[Driver { name: "U06", search: u06::search, run: u06::run }, Driver { name: "U07", search: u07::search, run: u07::run }]);
 }
